@@ -46,6 +46,18 @@ for fmt, mod, fn, labs in (("odt", "odt_extractor.py", "_extract_images_from_con
         add(f"C14-odf-dot-href-{fmt}" + (lab[-2:] if len(labs) > 1 else ""), P + f"{mod}::{fn}/resolution#{lab}", "odf-dot-href", fmt,
             f"{fmt.upper()}: xlink:href is used as the member name verbatim; './Pictures/x.png' (a legal package-relative IRI) is not found and the image is silently dropped",
             "href_has_dot_or_empty_segments(href)")
+add("C14-pptx-slide-target-not-resolved", P + "pptx_extractor.py::_PptxContext._compute_slide_order/resolution#slide-part", "slide-target", "pptx",
+    "PPTX: presentation.xml.rels slide targets are prefixed with 'ppt/' by hand: an absolute ('/ppt/slides/slide1.xml') or dot ('./slides/slide1.xml') target "
+    "names a part that does not exist, the slide comes back empty and its pictures are lost (proposed_fixes/C14_r2_part_names.diff)",
+    "slide_target_is_absolute_or_has_dot_segments(target)", "pptx_extractor.py::_compute_slide_order")
+add("C14-xlsx-drawing-rels-by-text-replacement", P + "xlsx_extractor.py::_extract_images_from_zip/resolution#drawing-relationship-part", "drawing-dir", "xlsx",
+    "XLSX: the relationship part of a drawing is derived by replacing the text 'drawings/' -> 'drawings/_rels/' and '.xml' -> '.xml.rels' in its name; a drawing "
+    "part outside a directory called drawings/ (xl/dr/drawing1.xml) loses all its pictures (proposed_fixes/C14_r2_part_names.diff)",
+    "drawing_part_not_in_a_directory_named_drawings(part)", "xlsx_extractor.py::_extract_images_from_zip")
+add("C14-xlsx-sheet-part-by-tab-index", P + "xlsx_extractor.py::_extract_images_from_zip/resolution#sheet-relationship-part", "sheet-order", "xlsx",
+    "XLSX: the drawing of the k-th sheet is looked up in xl/worksheets/_rels/sheet{k}.xml.rels instead of the relationship part of the sheet part that "
+    "workbook.xml names for tab k: when part names do not follow tab order the picture is attributed to the wrong sheet",
+    "sheet_part_names_do_not_follow_tab_order(workbook)", "xlsx_extractor.py::_extract_images_from_zip")
 kf = json.load(open("/tmp/vw_C14/known_findings.json"))
 kf["findings"] = [f for f in kf["findings"] if f["property"] != "C14"] + F
 json.dump(kf, open("/tmp/vw_C14/known_findings.json", "w"), indent=1)
